@@ -249,8 +249,28 @@ def read_idioms():
     if "add_node" not in ik or "add_link" not in ik:
         raise ExtractionError("add_interface_sliver shape changed: %s" % ik)
     if_pre = "get_node_properties" in ik and ik.index("get_node_properties") < ik.index("add_node")
+    # (5) does NetworkService.peer remove the ServicePorts it created when a later step raises?
+    #     try: <three creations> except Exception: for ...: remove_cp_and_links(...); raise
+    peer_fn = find_func(find_class(tree, "NetworkService"), "peer")
+    ptries = [n for n in ast.walk(peer_fn) if isinstance(n, ast.Try)]
+    pcalls = [n.func.attr if isinstance(n.func, ast.Attribute) else getattr(n.func, "id", "?") for n in
+              sorted([n for n in ast.walk(peer_fn) if isinstance(n, ast.Call)], key=lambda n: (n.lineno, n.col_offset))]
+    if [c for c in pcalls if c in ("add_interface", "Link")] != ["add_interface", "add_interface", "Link"]:
+        raise ExtractionError("peer: expected add_interface, add_interface, Link in this order: %s" % pcalls)
+    if not ptries:
+        peer_rb = False
+    else:
+        hs = ptries[0].handlers
+        inner = [n.func.attr for st in ptries[0].body for n in ast.walk(st) if isinstance(n, ast.Call) and isinstance(n.func, ast.Attribute)]
+        ok = (len(ptries) == 1 and len(hs) == 1 and (hs[0].type is None or (isinstance(hs[0].type, ast.Name) and hs[0].type.id == "Exception"))
+              and isinstance(hs[0].body[-1], ast.Raise) and hs[0].body[-1].exc is None
+              and "remove_cp_and_links" in [n.func.attr for n in ast.walk(hs[0]) if isinstance(n, ast.Call) and isinstance(n.func, ast.Attribute)]
+              and inner.count("add_interface") == 2)
+        if not ok:
+            raise ExtractionError("peer: unrecognised try/except shape")
+        peer_rb = True
     return {"svcRollbackAll": catch_all, "facIndexReset": inside, "compositeRollback": comp_rb[0],
-            "linkPrecheck": link_pre, "ifaceParentPrecheck": if_pre, "connectNamePrecheck": conn_pre,
+            "linkPrecheck": link_pre, "ifaceParentPrecheck": if_pre, "connectNamePrecheck": conn_pre, "peerRollback": peer_rb,
             "spans": {"NetworkService.__init__": span_hash(src, init), "Topology.add_facility": span_hash(src2, fac)}}
 
 
@@ -346,6 +366,8 @@ def generate():
     body.append("def ifaceParentPrecheck : Bool := %s\n" % ("true" if idioms["ifaceParentPrecheck"] else "false"))
     body.append("/-- `connect_interface` validates the ServicePort name and the link name before creating the port -/")
     body.append("def connectNamePrecheck : Bool := %s\n" % ("true" if idioms["connectNamePrecheck"] else "false"))
+    body.append("/-- `NetworkService.peer` removes the ServicePorts it created when a later step raises -/")
+    body.append("def peerRollback : Bool := %s\n" % ("true" if idioms["peerRollback"] else "false"))
     changed = emit("Rules", "\n".join(body))
     missing = {k: [m for m in en[k] if m not in rules["types"][k]] for k in order}
     return {"changed": changed, "rules": len(rules["kinds"]), "classes": rules["classes"],
